@@ -74,9 +74,12 @@ def classify(case, j):
 
 
 def run(ctx):
-    A.mc(ctx, 'MC_IntRangeAcl.tla', 'MC_IntRangeAcl.cfg')
+    # quick: every ordered list of <= 3 ranges over 0..4; thorough: over 0..5, and <= 2 ranges over 0..15
     if ctx.thorough:
+        A.mc(ctx, 'MC_IntRangeAcl.tla', 'MC_IntRangeAcl.cfg')
         A.mc(ctx, 'MC_IntRangeAcl.tla', 'MC_IntRangeAcl_deep.cfg')
+    else:
+        A.mc(ctx, 'MC_IntRangeAcl.tla', 'MC_IntRangeAcl_quick.cfg')
     exe = A.build_driver(ctx)
     lines, nsmall = gen(ctx)
     ctx.log('design step passed; driver built; %d lists (%d exhaustive small-universe)' % (len(lines), nsmall))
